@@ -7,6 +7,7 @@ CONSTANTS
   Horizon = 1000000
   HeadCheck = TRUE
   MaxHold = 3
+  CritOn = TRUE
 INIT TraceInit
 NEXT TraceNext
 POSTCONDITION TraceAccepted
